@@ -16,6 +16,28 @@ import sys
 import warnings
 
 
+class EagerPool:
+    """Runs each task when it is submitted and hands back a genuine, already
+    completed ``concurrent.futures.Future`` (so that code written against the
+    futures API - ``as_completed``, ``wait`` - works on it)."""
+
+    _max_workers = 2
+
+    def submit(self, fn, *args, **kwargs):
+        from concurrent.futures import Future
+
+        f = Future()
+        try:
+            f.set_result(fn(*args, **kwargs))
+        except Exception as e:  # noqa
+            f.set_exception(e)
+        return f
+
+
+def make_pool(kind):
+    return EagerPool() if kind == "eager" else False
+
+
 def build_tree(ctg, case):
     net = case["net"]
     inputs = [tuple(t) for t in net["inputs"]]
@@ -89,12 +111,12 @@ def run_case_inner(ctg, case, shared_tree):
     if api == "slice":
         tree = shared_tree if shared_tree is not None else build_tree(ctg, case)
         tsz = max(1, tree.max_size() // a["div"])
-        t2 = tree.slice(target_size=tsz, seed=s, temperature=a["temp"], max_repeats=a["reps"])
+        t2 = tree.slice(target_size=tsz, seed=s, temperature=a["temp"], max_repeats=a["reps"], allow_outer=a.get("allow_outer", True))
         return tree_digest(t2)
     if api == "slicefinder":
         tree = shared_tree if shared_tree is not None else build_tree(ctg, case)
         tsz = max(1, tree.max_size() // a["div"])
-        sf = ctg.slicer.SliceFinder(tree, target_size=tsz, seed=s, temperature=a["temp"])
+        sf = ctg.slicer.SliceFinder(tree, target_size=tsz, seed=s, temperature=a["temp"], allow_outer=a.get("allow_outer", True))
         ix, cost = sf.search(a["reps"])
         return {"ix": sorted(ix), "size": cost.size, "flops": cost.total_flops}
     if api == "reconf":
@@ -108,7 +130,7 @@ def run_case_inner(ctg, case, shared_tree):
         tree = shared_tree if shared_tree is not None else build_tree(ctg, case)
         t2 = tree.subtree_reconfigure_forest(
             num_trees=a["num_trees"], num_restarts=a["restarts"], subtree_maxiter=a["maxiter"],
-            subtree_size=a["size"], parallel=False, seed=s,
+            subtree_size=a["size"], parallel=make_pool(a.get("pool")), seed=s,
         )
         return tree_digest(t2)
     if api == "anneal":
@@ -126,7 +148,7 @@ def run_case_inner(ctg, case, shared_tree):
             kw["target_size"] = max(1, tree.max_size() // a["div"])
         t2 = tree.parallel_temper(
             tsteps=a["tsteps"], numiter=a["numiter"], num_trees=a["num_trees"],
-            parallel=False, seed=s, **kw,
+            parallel=make_pool(a.get("pool")), seed=s, **kw,
         )
         return tree_digest(t2)
     if api == "unslice_rand":
